@@ -40,11 +40,11 @@ TWINS = {
 
 # batches that are wired into checks (a batch under construction is simply not listed here yet)
 READY = ['core', 'eslice', 'op_eval', 'cfi_lookup', 'cfi_uctx', 'cfi_uctx_link', 'line_hdr', 'attrs', 'units', 'dwarf_ranges', 'index', 'relocate',
-         'conv', 'filter', 'wcore', 'wreloc', 'wop', 'wlists', 'wunit', 'wunit_layout', 'wcfi', 'wline', 'wline_insn', 'leb', 'macros', 'names', 'bases', 'wabbrev']
+         'conv', 'filter', 'wcore', 'wreloc', 'wop', 'wlists', 'wunit', 'wunit_layout', 'wcfi', 'wline', 'wline_insn', 'leb', 'macros', 'names', 'bases', 'wabbrev', 'filter_reserve']
 # batch -> batches whose items it re-verifies completely (so the smaller one need not run as well)
 SUPERSEDES = {'op_eval': ['op'], 'dwarf_ranges': ['lists'], 'cfi_uctx_link': ['cfi_unwind'], 'line_hdr': ['line'], 'cfi_lookup': ['cfi_entries']}
 # tags that only quote another property's vocabulary inside a batch (not obligations of that property)
-IGNORE = {('line_hdr', 'C03'), ('wline', 'C12'), ('filter', 'C01'), ('filter', 'C07'), ('wunit', 'C03'), ('wunit', 'C15'), ('conv', 'C05'), ('index', 'C09'), ('macros', 'C10'), ('names', 'C10'), ('wunit_layout', 'C16'), ('bases', 'C10'), ('wabbrev', 'C02')}
+IGNORE = {('line_hdr', 'C03'), ('wline', 'C12'), ('filter', 'C01'), ('filter', 'C07'), ('wunit', 'C03'), ('wunit', 'C15'), ('conv', 'C05'), ('index', 'C09'), ('macros', 'C10'), ('names', 'C10'), ('wunit_layout', 'C16'), ('bases', 'C10'), ('wabbrev', 'C02'), ('filter_reserve', 'C02')}
 
 ND = {
     'C01': 'entry points not extracted (MacroString::string, Dwarf/DwarfSections loaders, DwarfPackage, ConvertUnit*), stack depth '
@@ -64,7 +64,7 @@ ND = {
            'bodies (batch leb, over the read_u8 contract) but remains an assumption for a user reader that overrides them.',
     'C10': 'EndianReader over arbitrary user buffer types (CloneStableDeref is the user\'s contract); AddressSanitizer-style whole-run '
            'checks; positional clauses of EndianSlice are discharged by Kani on bounded buffers only.',
-    'C11': 'AbbreviationTable::add, StringTable, LineStringTable (IndexSet/IndexMap), Dwarf::write section order, and the end-to-end '
+    'C11': 'AbbreviationTable::add de-duplication, StringTable, LineStringTable (IndexSet/IndexMap), Dwarf::write section order, and the end-to-end '
            'statement "reads back as the same forest": only the size model and per-kind emission are decided.',
     'C12': 'ConvertUnit*/entry-id maps, Expression::from body, ConvertLineProgram (needs the whole reader-side line machine), idempotence '
            'of a second conversion, corpus round trips.',
@@ -75,7 +75,7 @@ ND = {
     'C17': 'NameBucketIter/NameHashIter beyond batch index, case_folding_djb_hash, name_string, DwarfPackage assembly, loader wiring (closures), dwp corpus.',
     'C18': 'that no parser/writer outside the extracted set uses a plain integer primitive for a relocatable field; the '
            'event-to-lowered refinement argument of the relocating writer is stated, not mechanised.',
-    'C19': 'FilterUnit::read_entry parent stack, ConvertUnitSection::{new_with_filter, reserve_unit}, ConvertUnit::{read_entry, add_entry}, '
+    'C19': 'FilterUnit::read_entry parent stack, the unfiltered ConvertUnitSection::new and the split-unit path, that FilterUnitSection establishes the section well-formedness new_with_filter requires, ConvertUnit::{read_entry, add_entry}, '
            '"writing never fails for a missing reference", attribute equality with the unfiltered conversion.',
     'C20': 'AbbreviationsCache (sort/dedup/retain closures, Arc, BTreeMap); "iterators are plain Clone values" is a type-system fact.',
 }
